@@ -405,7 +405,21 @@ fn c10_exchange(cx: &mut Ctx, req: &str, scenario: usize, stream: &[u8]) {
                 if p[0] == "bytes" { soff += p[1].parse::<usize>().unwrap_or(0); }
                 cx.op("proceed");
             }
-            "redirect" => { cx.op("close?"); cx.op("reason"); cx.op("proceed"); }
+            "redirect" => {
+                cx.op("close?"); cx.op("reason");
+                // the verdict belongs to one exchange: the flow made for the redirect starts afresh (only what the
+                // request itself says — version, Connection — carries over)
+                if cx.op("follow never").starts_with("flow ") {
+                    cx.op("proceed"); cx.op("write 4096"); cx.op("proceed");
+                    if cx.rec.state() == "recvResponse" {
+                        cx.op(&format!("resp {}", hx(b"HTTP/1.1 200 OK\r\nContent-Length: 0\r\n\r\n")));
+                        cx.op("proceed");
+                    }
+                    if cx.rec.state() == "cleanup" { cx.op("close?"); cx.op("reason"); }
+                    return;
+                }
+                cx.op("proceed");
+            }
             "cleanup" => { cx.op("close?"); cx.op("reason"); return; }
             _ => return,
         }
